@@ -177,9 +177,9 @@ func genCase() *rapid.Generator[tcase] {
 			f.Resp = rapid.Permutation(f.Resp).Draw(t, "resp-order")
 		}
 		c.Flow = f
-		nq := rapid.IntRange(0, 2).Draw(t, "nquotas")
+		nq := rapid.IntRange(0, 3).Draw(t, "nquotas")
 		for i := 0; i < nq; i++ {
-			c.Quotas = append(c.Quotas, rapid.SampledFrom([]string{"fixed", "concurrent"}).Draw(t, "qkind"))
+			c.Quotas = append(c.Quotas, rapid.SampledFrom([]string{"fixed", "concurrent", "concurrent", "concurrent*", "fixed*"}).Draw(t, "qkind"))
 		}
 		c.ReqHdr, c.RespHdr = map[string]string{}, map[string]string{}
 		for _, p := range f.Procs {
@@ -201,7 +201,13 @@ func quotaYAML(kinds []string) string {
 	var b strings.Builder
 	b.WriteString("quotas:\n")
 	for i, k := range kinds {
-		fmt.Fprintf(&b, "  - id: SQ%d\n    filter:\n      url: \"h.com/g\"\n    strategy:\n", i)
+		// "<kind>" sits on the flow's own URL, "<kind>*" on the wildcard pattern above it (another node of the
+		// filter tree that matches the same transactions)
+		url := "h.com/g"
+		if strings.HasSuffix(k, "*") {
+			url, k = "h.com/*", strings.TrimSuffix(k, "*")
+		}
+		fmt.Fprintf(&b, "  - id: SQ%d\n    filter:\n      url: \"%s\"\n    strategy:\n", i, url)
 		if k == "fixed" {
 			b.WriteString("      fixed_window:\n        max: 100000\n        interval: 1\n        interval_unit: minute\n")
 		} else {
@@ -403,11 +409,28 @@ func runCase(r *ev.Recorder, rec *engine.Recorder, c tcase) (nontrivial bool, er
 			return nontrivial, fmt.Errorf("system end flow %s ran before the user flow finished on the request", e.Flow)
 		}
 	}
+	incOrder := systemFlowOrder(all)
+	if os.Getenv("C04_DEBUG") != "" {
+		for _, e := range all {
+			fmt.Printf("REQ %+v\n", e)
+		}
+	}
 	if len(c.Quotas) > 0 && nStart == 0 {
 		return nontrivial, fmt.Errorf("quotas are configured on the flow's URL but no system start flow ran on the request")
 	}
 	if len(c.Quotas) > 0 {
 		r.Class("with-system-flows")
+	}
+	// every quota whose filter matches the transaction counts it: its system-flow processor runs on the request,
+	// also when several quotas share one filter (and with it one system flow)
+	for i := range c.Quotas {
+		key, ran := fmt.Sprintf("SQ%d_QuotaProcessorInc", i), false
+		for _, e := range all {
+			ran = ran || (e.Dir == "StreamTypeRequest" && e.Key == key)
+		}
+		if !ran {
+			return nontrivial, fmt.Errorf("quota SQ%d matches the transaction but its system-flow processor %s did not run on the request (quotas: %v)", i, key, c.Quotas)
+		}
 	}
 	answered := strict.answered
 	if (res.Early != nil) != (answered != "") {
@@ -466,14 +489,51 @@ func runCase(r *ev.Recorder, rec *engine.Recorder, c tcase) (nontrivial bool, er
 	}
 	conc := 0
 	for _, q := range c.Quotas {
-		if q == "concurrent" {
+		if strings.HasPrefix(q, "concurrent") {
 			conc++
 		}
 	}
 	if conc > 0 && nDec == 0 {
 		return nontrivial, fmt.Errorf("a concurrency quota is configured but its system end flow did not run on the response")
 	}
+	// "in reverse order on responses": the system flows (one per filter-tree node that carries quotas) that act on
+	// the response run in the reverse of the order in which they ran on the request; the order of the processors
+	// inside one system flow is not part of the statement
+	decOrder := systemFlowOrder(all)
+	wantDec := []string{}
+	for i := len(incOrder) - 1; i >= 0; i-- {
+		for _, d := range decOrder {
+			if d == incOrder[i] {
+				wantDec = append(wantDec, d)
+			}
+		}
+	}
+	if len(decOrder) >= 2 {
+		r.Class("two or more system flows act on the response")
+	}
+	if strings.Join(decOrder, ",") != strings.Join(wantDec, ",") {
+		return nontrivial, fmt.Errorf("the system flows of the quotas ran on the request in the order %v, on the response in the order %v; the statement requires the reverse order %v", incOrder, decOrder, wantDec)
+	}
 	return nontrivial, nil
+}
+
+// systemFlowOrder lists the system flows (by the id between "SystemFlow_" and "_SYSTEM_FLOW_...") in the order in
+// which they first executed a processor.
+func systemFlowOrder(all []engine.ProcEvent) []string {
+	out := []string{}
+	seen := map[string]bool{}
+	for _, e := range all {
+		i := strings.Index(e.Flow, "_SYSTEM_FLOW_")
+		if !strings.HasPrefix(e.Flow, "SystemFlow_") || i < 0 {
+			continue
+		}
+		id := e.Flow[len("SystemFlow_"):i]
+		if !seen[id] {
+			seen[id] = true
+			out = append(out, id)
+		}
+	}
+	return out
 }
 
 type discrepancy struct {
